@@ -38,11 +38,21 @@ MANIFEST_ENTRY = {
     "design_ref": "DESIGN.md section 5 C04",
 }
 
-FAULT_KINDS = ["exc-before", "exc-after", "kbi", "sysexit"]
+FAULT_KINDS = ["exc-before", "exc-after", "kbi", "sysexit", "other-before", "other-after"]
 
 
 class Injected(OSError):
     pass
+
+
+def _other_exc(msg: str) -> Exception:
+    """A storage failure that is NOT an OSError: what object stores raise (botocore ClientError, e.g. a throttling answer that
+    outlasts the retries, AccessDenied on one verb), or any RuntimeError from a storage plug-in."""
+    try:
+        from botocore.exceptions import ClientError
+        return ClientError({"Error": {"Code": "SlowDown", "Message": msg}, "ResponseMetadata": {"HTTPStatusCode": 503}}, "InjectedOp")
+    except Exception:       # noqa: BLE001
+        return RuntimeError(msg)
 
 
 def op_for(kind: str, res_initial: Optional[Dict[str, Any]] = None) -> Dict[str, Any]:
@@ -68,6 +78,10 @@ def make_inject(k: int, fkind: str, k2: Optional[int] = None):
                 return ("before", Injected("injected storage failure"))
             if fkind == "exc-after":
                 return ("after", Injected("injected storage failure after effect"))
+            if fkind == "other-before":
+                return ("before", _other_exc("injected storage failure"))
+            if fkind == "other-after":
+                return ("after", _other_exc("injected storage failure after effect"))
             if fkind == "kbi":
                 return ("before", KeyboardInterrupt())
             if fkind == "sysexit":
@@ -284,7 +298,7 @@ def run(ctx) -> None:
                 "{with, explicit} x {local, s3cas, s3nocas}; thorough adds double faults (k, k2) on the append path; distinct = "
                 "(backend, op, style, k, kind)")
     ctx.trusted_base += ["harness/lib/sched.py fault directives, protocol.py, mems3.py; harness/props/c04.py projection"]
-    ctx.assumptions += ["an OSError stands for every storage exception class; KeyboardInterrupt/SystemExit for every BaseException"]
+    ctx.assumptions += ["storage failures are injected as OSError and as a non-OSError (botocore ClientError); KeyboardInterrupt/SystemExit for every BaseException"]
     ctx.proofs(THEOREMS)
     ctx.allow_axioms([])
     quick = ctx.tier == "quick"
@@ -302,7 +316,7 @@ def run(ctx) -> None:
         pre, post = sig(clean.initial), sig(clean.final)
         ncalls = len(clean.log)
         ctx.stats.setdefault("calls_per_commit", {})[f"{backend}/{opkind}/{style}"] = ncalls
-        kinds = FAULT_KINDS if backend != "local" else ["exc-before", "kbi", "sysexit"]
+        kinds = FAULT_KINDS if backend != "local" else ["exc-before", "kbi", "sysexit", "other-before"]
         if quick:
             kinds = [k for k in kinds if k != "sysexit"]
         ks = list(range(ncalls))
